@@ -1,13 +1,566 @@
 import Uflow.Model.HalfConn
+import Uflow.Lemmas.RateEx
 
-/-! # C14 (theorems are being added) -/
+/-!
+# C14 — TFRC rate bounds of the sender (`Uflow/Model/Rate.lean`)
+
+All theorems hold for EVERY `ops : FloatOps F` (no assumption on the float operations), every
+`now` and every feedback value.
+
+Vocabulary (defined in `Uflow/Lemmas/Rate*.lean`):
+* `rttOf ops s fb` — the RTT after the feedback `fb` (`C14_rtt` pins it down:
+  `ewma old sample`, or the first sample);
+* `lossInc ops s fb = ops.gt fb.lossRate s.prevLossRate`;
+* `ssTarget ops s fb ld` — `initLossRate rtt'` if slow start never doubled (`ld = none`), else
+  `sendRate / 2`;
+* `Event` / `run` — runs of `sent now | step now fb` events, aborted by the first trap;
+* `EqnInv` — `mode = eqn tcp → setMax recvSet = ok recv →
+  min (max (min tcp (max (satMul2 recv / 2) MINIMUM_RATE)) MINIMUM_RATE) maxSendRate ≤ sendRate`;
+* `Narrows`, `BisectStuck`, `BisectClose` — the iterations / exit conditions of the bisection.
+
+Model revision: the no-feedback expiry of the equation phase now floors the rate
+(`sendRate := min (max (min tcp newLimit) MINIMUM_RATE) maxSendRate`), the repair of the finding
+`C14_floor_witness_run_healthy` of the previous revision (rate 11 B/s reachable with well-behaved
+float operations; reproduced on the Rust code).
+
+FINDINGS (properties that are FALSE for the model as stated in the task; each has a `…_witness`):
+* `C14_ceiling` needs `MINIMUM_RATE ≤ maxSendRate` (`C14_ceiling_witness`);
+* `C14_floor` is still false on the two slow-start branches that assign `initRate rtt'`
+  (`C14_floor_witness_first`, `C14_floor_witness_double`, reachable: `C14_floor_witness_run`);
+  with `∀ rtt, MINIMUM_RATE ≤ ops.initRate rtt` it holds for every reachable state
+  (`C14_floor_run`);
+* `C14_nofb_monotone` is false for arbitrary equation-phase states (`C14_nofb_monotone_witness`);
+  it holds for all states reachable from `init` (`C14_nofb_monotone_run`).
+-/
 
 namespace Uflow.Props.C14
 
-open Uflow.Rate
+open Uflow.Rate Uflow.Gen
+
+variable {F : Type}
 
 /-- `satMul2` (the model of `saturating_mul(2)`) never exceeds u32::MAX. -/
 theorem C14_satMul2_le (x : Nat) : satMul2 x ≤ u32max := by
   unfold satMul2; omega
+
+/-! ## 1. ceiling -/
+
+/-- The ceiling as literally stated (`sendRate ≤ maxSendRate` preserved by every `step`) is FALSE:
+with a ceiling below `MINIMUM_RATE` the no-feedback halving in slow start sets
+`max (rate/2) MINIMUM_RATE = 23 > 10`. -/
+theorem C14_ceiling_witness :
+    ∃ (ops : FloatOps Nat) (s s' : State Nat) (now : Nat) (r : Option Nat),
+      step ops s now none = .ok (s', r) ∧ s.sendRate ≤ s.maxSendRate ∧
+      ¬ s'.sendRate ≤ s'.maxSendRate :=
+  ⟨Ex.okOps, Ex.st (.slowStart none) 5 10 [⟨u32max, 0, true⟩] none, _, 0, _, rfl,
+    by decide, by decide⟩
+
+/-- **C14_ceiling** (true variant: the ceiling is at least `MINIMUM_RATE`). -/
+theorem C14_ceiling (ops : FloatOps F) (s s' : State F) (now : Nat) (fb : Option (Feedback F))
+    (r : Option F) (h : step ops s now fb = .ok (s', r)) (hc : s.sendRate ≤ s.maxSendRate)
+    (hm : MINIMUM_RATE ≤ s.maxSendRate) :
+    s'.sendRate ≤ s'.maxSendRate ∧ s'.maxSendRate = s.maxSendRate := by
+  have hmx := step_maxSendRate h
+  exact ⟨by rw [hmx]; exact step_ceiling h hc hm, hmx⟩
+
+example : ∃ s' r, step Ex.okOps (Ex.st (.slowStart none) 5000 10000 [⟨u32max, 0, true⟩] none) 7
+    (none : Option (Feedback Nat)) = .ok (s', r) ∧ s'.sendRate = 2500 := ⟨_, _, rfl, rfl⟩
+
+/-- A processed feedback re-establishes the ceiling whatever the state was before. -/
+theorem C14_ceiling_feedback (ops : FloatOps F) (s s' : State F) (now : Nat) (fb : Feedback F)
+    (r : Option F) (h : step ops s now (some fb) = .ok (s', r)) (hm : s.mode ≠ .awaitSend) :
+    s'.sendRate ≤ s'.maxSendRate ∧ s'.maxSendRate = s.maxSendRate := by
+  have hmx := step_maxSendRate h
+  refine ⟨?_, hmx⟩
+  rw [hmx]
+  cases step_ok_cases h with
+  | idle _ hi =>
+    rcases hi with hi | ⟨hi, _⟩
+    · exact absurd hi hm
+    · cases hi
+  | feedback _ _ _ _ hf => exact handleFeedback_ceiling hf
+
+/-- `notify_frame_sent` changes neither the rate nor the ceiling. -/
+theorem C14_ceiling_sent (s : State F) (now : Nat) :
+    (notifyFrameSent s now).sendRate = s.sendRate ∧
+    (notifyFrameSent s now).maxSendRate = s.maxSendRate :=
+  notifyFrameSent_sendRate s now
+
+/-- **C14_ceiling over runs**: from `init ops m` with `MSS ≤ m` every reachable state has
+`sendRate ≤ m` (and the ceiling is never changed). -/
+theorem C14_ceiling_run (ops : FloatOps F) (m : Nat) (evs : List (Event F)) (s' : State F)
+    (hm : MSS ≤ m) (h : run ops (init ops m) evs = .ok s') :
+    s'.sendRate ≤ m ∧ s'.maxSendRate = m := by
+  have key : s'.sendRate ≤ s'.maxSendRate ∧ s'.maxSendRate = m := by
+    refine run_invariant (ops := ops) (fun s => s.sendRate ≤ s.maxSendRate ∧ s.maxSendRate = m)
+      ?_ ⟨hm, rfl⟩ h
+    intro s e s1 ⟨hc, hmax⟩ he
+    rcases applyEvent_ok_cases he with ⟨now, rfl, rfl⟩ | ⟨now, fb, r, rfl, hst⟩
+    · obtain ⟨h1, h2⟩ := notifyFrameSent_sendRate s now
+      rw [h1, h2]
+      exact ⟨hc, hmax⟩
+    · have hmin : MINIMUM_RATE ≤ s.maxSendRate := by
+        rw [hmax]; simp only [MSS] at hm; simp only [MINIMUM_RATE]; omega
+      obtain ⟨h1, h2⟩ := C14_ceiling ops s s1 now fb r hst hc hmin
+      exact ⟨h1, by rw [h2]; exact hmax⟩
+  exact ⟨by rw [← key.2]; exact key.1, key.2⟩
+
+example : ∃ s', run Ex.okOps (init Ex.okOps 3000)
+    [.sent 0, .step 10 (some (Ex.fb 10 5000 0)), .step 30 (some (Ex.fb 10 5000 0))] = .ok s' ∧
+    s'.sendRate = 3000 := ⟨_, rfl, rfl⟩
+
+/-! ## 2. floor -/
+
+/-- FALSE branch 1: the first feedback in slow start sets `sendRate := initRate rtt` (capped only
+from above); with a long RTT `initRate` is below `MINIMUM_RATE`. -/
+theorem C14_floor_witness_first :
+    ∃ (ops : FloatOps Nat) (s s' : State Nat) (now : Nat) (fb : Feedback Nat) (r : Option Nat),
+      step ops s now (some fb) = .ok (s', r) ∧ MINIMUM_RATE ≤ s.maxSendRate ∧
+      MINIMUM_RATE ≤ s.sendRate ∧ s'.sendRate < MINIMUM_RATE :=
+  ⟨Ex.smallInitOps, Ex.st (.slowStart none) 1472 100000 [⟨u32max, 0, true⟩] none, _, 10,
+    Ex.fb 1000 5000 0, _, rfl, by decide, by decide, by decide⟩
+
+/-- FALSE branch 2: doubling in slow start, `max (min (2·rate) recvLimit) (initRate rtt)` with a
+receive limit of 0 and a small `initRate`. -/
+theorem C14_floor_witness_double :
+    ∃ (ops : FloatOps Nat) (s s' : State Nat) (now : Nat) (fb : Feedback Nat) (r : Option Nat),
+      step ops s now (some fb) = .ok (s', r) ∧ MINIMUM_RATE ≤ s.maxSendRate ∧
+      MINIMUM_RATE ≤ s.sendRate ∧ s'.sendRate < MINIMUM_RATE :=
+  ⟨Ex.smallInitOps, Ex.st (.slowStart (some 0)) 1472 100000 [⟨u32max, 0, true⟩] (some 1000), _,
+    5000, Ex.fb 1000 0 0, _, rfl, by decide, by decide, by decide⟩
+
+/-- The violation is REACHABLE from `init`, and the hypothesis `∀ rtt, MINIMUM_RATE ≤ initRate rtt`
+of `C14_floor_run` is NECESSARY even when the throughput equation (≥ 99) and the loss target (736)
+are healthy: frame sent, first feedback with a long RTT sample: `sendRate := initRate rtt = 4`. -/
+theorem C14_floor_witness_run :
+    (∀ rtt p, p ≤ 1000 → MINIMUM_RATE ≤ Ex.smallInitOps.tcpRate rtt p) ∧
+    (∀ rtt, MINIMUM_RATE ≤ Ex.smallInitOps.initLossRate rtt) ∧
+    ∃ (evs : List (Event Nat)) (s' : State Nat),
+      run Ex.smallInitOps (init Ex.smallInitOps 100000) evs = .ok s' ∧
+      nondecreasing 0 evs = true ∧ MSS ≤ s'.maxSendRate ∧ s'.sendRate = 4 := by
+  refine ⟨?_, ?_, ?_⟩
+  · intro rtt p hp
+    show 23 ≤ 100000 / (p + 1)
+    exact (Nat.le_div_iff_mul_le (by omega)).mpr (by omega)
+  · intro rtt
+    exact show 23 ≤ 736 by decide
+  · exact ⟨[.sent 0, .step 10 (some (Ex.fb 1000 5000 0))], _, rfl, by decide, by decide, rfl⟩
+
+/-- **C14_floor_partial** — the strongest true single-step variant. The floor is kept by a
+successful `step` provided the one remaining unfloored quantity is itself at least `MINIMUM_RATE`:
+* `hinit`: on a feedback without loss increase in slow start that sets the rate (first feedback,
+  or a doubling is due), `MINIMUM_RATE ≤ initRate rtt'`.
+Nothing is assumed on any other branch (in particular the no-feedback expiry of the equation phase
+now floors the rate). Missing w.r.t. the full statement: exactly this side condition, which the
+witnesses above show to be necessary. -/
+theorem C14_floor_partial (ops : FloatOps F) (s s' : State F) (now : Nat)
+    (fb : Option (Feedback F)) (r : Option F) (h : step ops s now fb = .ok (s', r))
+    (hmax : MINIMUM_RATE ≤ s.maxSendRate) (hrate : MINIMUM_RATE ≤ s.sendRate)
+    (hinit : ∀ fb' ld, fb = some fb' → s.mode = .slowStart ld → lossInc ops s fb' = false →
+      (∀ t, ld = some t → ops.sToMs (rttOf ops s fb') ≤ now - t) →
+      MINIMUM_RATE ≤ ops.initRate (rttOf ops s fb')) :
+    MINIMUM_RATE ≤ s'.sendRate := by
+  simp only [MINIMUM_RATE] at *
+  cases step_ok_cases h with
+  | idle _ _ => exact hrate
+  | feedback fb' _ _ _ hf =>
+    obtain ⟨set, L, md, x, _, rfl, hb⟩ := handleFeedback_ok_cases hf
+    show 23 ≤ min x s.maxSendRate
+    cases hb with
+    | eqn _ _ => simp only [MINIMUM_RATE]; omega
+    | leave _ _ _ _ _ => simp only [MINIMUM_RATE]; omega
+    | first hm hl =>
+      have := hinit fb' none rfl hm hl (by intro t ht; cases ht)
+      omega
+    | double t hm hl _ hd _ =>
+      have := hinit fb' (some t) rfl hm hl (by intro t' ht'; cases ht'; exact hd)
+      omega
+    | keep _ _ _ _ _ => omega
+  | expired _ _ _ _ _ hn =>
+    obtain ⟨s1, hb, rfl⟩ := nofeedbackExpired_ok_cases hn
+    show 23 ≤ s1.sendRate
+    cases hb with
+    | keep _ => exact hrate
+    | halve _ _ =>
+      show 23 ≤ max (s.sendRate / 2) 23
+      omega
+    | limit tcp _ recv _ _ _ =>
+      show 23 ≤ min (max (min tcp (max (min tcp (satMul2 recv) / 2) 23)) 23) s.maxSendRate
+      omega
+
+example : ∃ s' r, step Ex.okOps
+    (Ex.st (.slowStart none) 1472 100000 [⟨u32max, 0, true⟩] none) 10
+    (some (Ex.fb 10 5000 0)) = .ok (s', r) ∧ s'.sendRate = 4380 := ⟨_, _, rfl, rfl⟩
+
+/-- floor, no feedback (any mode, in particular the expiry in the equation phase): unconditional. -/
+theorem C14_floor_nofb (ops : FloatOps F) (s s' : State F) (now : Nat) (r : Option F)
+    (h : step ops s now none = .ok (s', r))
+    (hmax : MINIMUM_RATE ≤ s.maxSendRate) (hrate : MINIMUM_RATE ≤ s.sendRate) :
+    MINIMUM_RATE ≤ s'.sendRate :=
+  C14_floor_partial ops s s' now none r h hmax hrate (by intro _ _ h'; cases h')
+
+example : ∃ s' r, step Ex.okOps (Ex.st (.slowStart none) 40 10000 [⟨u32max, 0, true⟩] none) 7
+    (none : Option (Feedback Nat)) = .ok (s', r) ∧ s'.sendRate = 23 := ⟨_, _, rfl, rfl⟩
+
+/-- the repaired branch: equation rate below the floor, the expiry yields the floor. -/
+example : ∃ s' r, step Ex.okOps
+    (Ex.st (.eqn 5) 23 100000 [⟨1000, 0, false⟩] (some 1000)) 10 none = .ok (s', r) ∧
+    s'.sendRate = 23 := ⟨_, _, rfl, rfl⟩
+
+/-- floor, feedback in the equation phase: unconditional. -/
+theorem C14_floor_fb_eqn (ops : FloatOps F) (s s' : State F) (now : Nat) (fb : Feedback F)
+    (r : Option F) (tcp : Nat) (h : step ops s now (some fb) = .ok (s', r)) (hm : s.mode = .eqn tcp)
+    (hmax : MINIMUM_RATE ≤ s.maxSendRate) (hrate : MINIMUM_RATE ≤ s.sendRate) :
+    MINIMUM_RATE ≤ s'.sendRate :=
+  C14_floor_partial ops s s' now (some fb) r h hmax hrate
+    (by intro _ ld _ h'; rw [hm] at h'; cases h')
+
+example : ∃ s' r, step Ex.lowOps (Ex.st (.eqn 5000) 4000 100000 [⟨1000, 0, false⟩] (some 100)) 10
+    (some (Ex.fb 100 0 0)) = .ok (s', r) ∧ s'.sendRate = 23 := ⟨_, _, rfl, rfl⟩
+
+/-- floor, feedback reporting a loss increase (in slow start: slow start is left): unconditional. -/
+theorem C14_floor_fb_leave (ops : FloatOps F) (s s' : State F) (now : Nat) (fb : Feedback F)
+    (r : Option F) (h : step ops s now (some fb) = .ok (s', r)) (hl : lossInc ops s fb = true)
+    (hmax : MINIMUM_RATE ≤ s.maxSendRate) (hrate : MINIMUM_RATE ≤ s.sendRate) :
+    MINIMUM_RATE ≤ s'.sendRate :=
+  C14_floor_partial ops s s' now (some fb) r h hmax hrate
+    (by intro fb' _ hfb _ hl'; cases hfb; rw [hl] at hl'; cases hl')
+
+example : ∃ s' r, step Ex.lowOps
+    (Ex.st (.slowStart none) 1472 100000 [⟨u32max, 0, true⟩] none) 10
+    (some (Ex.fb 1000 5000 500)) = .ok (s', r) ∧ s'.sendRate = 23 ∧ s'.mode = .eqn 0 :=
+  ⟨_, _, rfl, rfl, rfl⟩
+
+/-- **C14_floor over runs**: if the initial-rate expression never yields less than the floor, then
+from `init ops m` with `MINIMUM_RATE ≤ m` every reachable state has `MINIMUM_RATE ≤ sendRate`.
+Nothing is assumed on `tcpRate`, `initLossRate` or any other float operation, nor on the event
+times. The hypothesis on `initRate` is necessary (`C14_floor_witness_run`). -/
+theorem C14_floor_run (ops : FloatOps F) (m : Nat) (evs : List (Event F)) (s' : State F)
+    (hm : MINIMUM_RATE ≤ m) (hinit : ∀ rtt, MINIMUM_RATE ≤ ops.initRate rtt)
+    (h : run ops (init ops m) evs = .ok s') : MINIMUM_RATE ≤ s'.sendRate := by
+  have key : MINIMUM_RATE ≤ s'.sendRate ∧ s'.maxSendRate = m := by
+    refine run_invariant (ops := ops) (fun s => MINIMUM_RATE ≤ s.sendRate ∧ s.maxSendRate = m)
+      ?_ ⟨show (23 : Nat) ≤ 1472 by decide, rfl⟩ h
+    intro s e s1 hP he
+    obtain ⟨hr, hmax⟩ := hP
+    rcases applyEvent_ok_cases he with ⟨now, rfl, rfl⟩ | ⟨now, fb, r, rfl, hst⟩
+    · obtain ⟨h1, h2⟩ := notifyFrameSent_sendRate s now
+      rw [h1, h2]
+      exact ⟨hr, hmax⟩
+    · refine ⟨?_, by rw [step_maxSendRate hst]; exact hmax⟩
+      exact C14_floor_partial ops s s1 now fb r hst (by rw [hmax]; exact hm) hr
+        (fun fb' _ _ _ _ _ => hinit (rttOf ops s fb'))
+  exact key.1
+
+/-- Both bounds over runs: from `init ops m` with `MSS ≤ m` and a floored `initRate`, every
+reachable state has `MINIMUM_RATE ≤ sendRate ≤ m`. -/
+theorem C14_bounds_run (ops : FloatOps F) (m : Nat) (evs : List (Event F)) (s' : State F)
+    (hm : MSS ≤ m) (hinit : ∀ rtt, MINIMUM_RATE ≤ ops.initRate rtt)
+    (h : run ops (init ops m) evs = .ok s') :
+    MINIMUM_RATE ≤ s'.sendRate ∧ s'.sendRate ≤ m ∧ s'.maxSendRate = m := by
+  have hm' : MINIMUM_RATE ≤ m := by
+    simp only [MSS] at hm; simp only [MINIMUM_RATE]; omega
+  exact ⟨C14_floor_run ops m evs s' hm' hinit h, C14_ceiling_run ops m evs s' hm h⟩
+
+/-- non-vacuity: `okOps` has a floored `initRate`; the run of the former finding (one feedback,
+eight no-feedback halvings while sending, a loss report storing `eqn 11`, one more expiry) now ends
+at the floor 23 instead of 11. -/
+example : (∀ rtt, MINIMUM_RATE ≤ Ex.okOps.initRate rtt) ∧
+    ∃ s', run Ex.okOps (init Ex.okOps 100000)
+      [.sent 0, .step 10 (some (Ex.fb 10 5000 0)),
+       .sent 20, .step 10000 none, .sent 10001, .step 20000 none, .sent 20001, .step 30000 none,
+       .sent 30001, .step 50000 none, .sent 50001, .step 100000 none, .sent 100001,
+       .step 200000 none, .sent 200001, .step 400000 none, .sent 400001, .step 800000 none,
+       .sent 800001, .step 800010 (some (Ex.fb 10 5000 20)),
+       .sent 800011, .step 2000000 none] = .ok s' ∧ s'.mode = .eqn 11 ∧ s'.sendRate = 23 :=
+  ⟨fun _ => show 23 ≤ 4380 by decide, _, rfl, rfl, rfl⟩
+
+/-! ## 3. no feedback never increases the rate -/
+
+/-- The claim for ARBITRARY states is FALSE in the equation phase: the new rate
+`min (max (min tcp newLimit) MINIMUM_RATE) maxSendRate` is computed from `tcp` and the receive-rate
+set, not from the current rate. -/
+theorem C14_nofb_monotone_witness :
+    ∃ (ops : FloatOps Nat) (s s' : State Nat) (now : Nat) (r : Option Nat),
+      step ops s now none = .ok (s', r) ∧ MINIMUM_RATE ≤ s.sendRate ∧
+      s.sendRate ≤ s.maxSendRate ∧ s.sendRate < s'.sendRate :=
+  ⟨Ex.okOps, Ex.st (.eqn 1000) 23 100000 [⟨1000, 0, false⟩] (some 100), _, 10, _, rfl,
+    by decide, by decide, by decide⟩
+
+/-- **C14_nofb_monotone** (true variant: `EqnInv s`, which holds in every state reachable from
+`init`, see `C14_eqnInv_run`; in slow start it is not needed). A `step` without feedback never
+increases the rate; in slow start the new rate is the old one or `max (rate/2) MINIMUM_RATE`; in
+the equation phase `eqn tcp` the rate is unchanged or at most `max tcp MINIMUM_RATE` (and at most
+the ceiling). -/
+theorem C14_nofb_monotone (ops : FloatOps F) (s s' : State F) (now : Nat) (r : Option F)
+    (h : step ops s now none = .ok (s', r)) (hrate : MINIMUM_RATE ≤ s.sendRate)
+    (hinv : EqnInv s) :
+    s'.sendRate ≤ s.sendRate ∧
+    (∀ ld, s.mode = .slowStart ld →
+      s'.sendRate = s.sendRate ∨ s'.sendRate = max (s.sendRate / 2) MINIMUM_RATE) ∧
+    (∀ tcp, s.mode = .eqn tcp →
+      s'.sendRate = s.sendRate ∨
+      (s'.sendRate ≤ max tcp MINIMUM_RATE ∧ s'.sendRate ≤ s.maxSendRate)) := by
+  cases step_ok_cases h with
+  | idle _ _ => exact ⟨Nat.le_refl _, fun _ _ => Or.inl rfl, fun _ _ => Or.inl rfl⟩
+  | expired _ _ _ _ _ hn =>
+    obtain ⟨s1, hb, rfl⟩ := nofeedbackExpired_ok_cases hn
+    show s1.sendRate ≤ s.sendRate ∧
+      (∀ ld, s.mode = .slowStart ld →
+        s1.sendRate = s.sendRate ∨ s1.sendRate = max (s.sendRate / 2) MINIMUM_RATE) ∧
+      (∀ tcp, s.mode = .eqn tcp →
+        s1.sendRate = s.sendRate ∨
+        (s1.sendRate ≤ max tcp MINIMUM_RATE ∧ s1.sendRate ≤ s.maxSendRate))
+    cases hb with
+    | keep _ => exact ⟨Nat.le_refl _, fun _ _ => Or.inl rfl, fun _ _ => Or.inl rfl⟩
+    | halve ld hm =>
+      refine ⟨?_, fun _ _ => Or.inr rfl, ?_⟩
+      · show max (s.sendRate / 2) MINIMUM_RATE ≤ s.sendRate
+        simp only [MINIMUM_RATE] at *
+        omega
+      · intro tcp h'
+        rw [hm] at h'
+        cases h'
+    | limit tcp rtt recv hm _ hs =>
+      have hk := hinv tcp recv hm hs
+      have hhalf : min tcp (satMul2 recv) / 2 ≤ satMul2 recv / 2 := by omega
+      refine ⟨?_, ?_, ?_⟩
+      · show min (max (min tcp (max (min tcp (satMul2 recv) / 2) MINIMUM_RATE)) MINIMUM_RATE)
+          s.maxSendRate ≤ s.sendRate
+        omega
+      · intro ld h'
+        rw [hm] at h'
+        cases h'
+      · intro tcp' h'
+        rw [hm] at h'
+        cases h'
+        refine Or.inr ⟨?_, ?_⟩
+        · show min (max (min tcp (max (min tcp (satMul2 recv) / 2) MINIMUM_RATE)) MINIMUM_RATE)
+            s.maxSendRate ≤ max tcp MINIMUM_RATE
+          omega
+        · show min (max (min tcp (max (min tcp (satMul2 recv) / 2) MINIMUM_RATE)) MINIMUM_RATE)
+            s.maxSendRate ≤ _
+          omega
+
+example : ∃ s' r, step Ex.okOps
+    (Ex.st (.eqn 1000) 1000 100000 [⟨1000, 0, false⟩] (some 100)) 10 none = .ok (s', r) ∧
+    EqnInv (Ex.st (.eqn 1000) 1000 100000 [⟨1000, 0, false⟩] (some 100)) ∧ s'.sendRate = 500 := by
+  refine ⟨_, _, rfl, ?_, rfl⟩
+  intro tcp recv hm hs
+  change Mode.eqn 1000 = Mode.eqn tcp at hm
+  change Except.ok 1000 = Except.ok recv at hs
+  cases hm
+  cases hs
+  decide
+
+/-- In the equation phase the bound `s'.sendRate ≤ tcp` of the original statement is FALSE (hence
+`≤ max tcp MINIMUM_RATE` above): with `tcp` below the floor, the expiry recomputes the rate as
+`max (min tcp newLimit) MINIMUM_RATE = 23 > 5`. The state satisfies `EqnInv` (it is the state
+reached right after entering the equation phase) and the timer has expired. -/
+theorem C14_nofb_eqn_le_tcp_witness :
+    ∃ (ops : FloatOps Nat) (s s' : State Nat) (now tcp exp : Nat) (r : Option Nat),
+      step ops s now none = .ok (s', r) ∧ s.mode = .eqn tcp ∧ EqnInv s ∧
+      s.nofeedbackExp = some exp ∧ exp ≤ now ∧ s.nofeedbackIdle = false ∧
+      MINIMUM_RATE ≤ s.sendRate ∧ ¬ s'.sendRate ≤ tcp := by
+  refine ⟨Ex.okOps, Ex.st (.eqn 5) 23 100000 [⟨1000, 0, false⟩] (some 1000), _, 10, 5, 0,
+    _, rfl, rfl, ?_, rfl, by decide, rfl, by decide, by decide⟩
+  intro tcp recv hm hs
+  change Mode.eqn 5 = Mode.eqn tcp at hm
+  change Except.ok 1000 = Except.ok recv at hs
+  cases hm
+  cases hs
+  decide
+
+/-- `EqnInv` holds initially and is preserved by every event (no hypothesis at all). -/
+theorem C14_eqnInv_step (ops : FloatOps F) (s s' : State F) (now : Nat) (fb : Option (Feedback F))
+    (r : Option F) (hinv : EqnInv s) (h : step ops s now fb = .ok (s', r)) : EqnInv s' :=
+  EqnInv_step hinv h
+
+theorem C14_eqnInv_sent (s : State F) (now : Nat) (hinv : EqnInv s) :
+    EqnInv (notifyFrameSent s now) :=
+  EqnInv_sent hinv now
+
+theorem C14_eqnInv_run (ops : FloatOps F) (m : Nat) (evs : List (Event F)) (s' : State F)
+    (h : run ops (init ops m) evs = .ok s') : EqnInv s' :=
+  run_EqnInv (EqnInv_init ops m) h
+
+/-- **C14_nofb_monotone over runs**: in every state reachable from `init` (any ceiling, any
+events) a `step` without feedback never increases a rate that is at least `MINIMUM_RATE`. -/
+theorem C14_nofb_monotone_run (ops : FloatOps F) (m : Nat) (evs : List (Event F))
+    (s s' : State F) (now : Nat) (r : Option F) (hs : run ops (init ops m) evs = .ok s)
+    (h : step ops s now none = .ok (s', r)) (hrate : MINIMUM_RATE ≤ s.sendRate) :
+    s'.sendRate ≤ s.sendRate :=
+  (C14_nofb_monotone ops s s' now r h hrate (C14_eqnInv_run ops m evs s hs)).1
+
+example : ∃ s s' r, run Ex.okOps (init Ex.okOps 100000)
+      [.sent 0, .step 10 (some (Ex.fb 10 5000 0)), .step 30 (some (Ex.fb 10 9000 20))] = .ok s ∧
+    step Ex.okOps s 100000 none = .ok (s', r) ∧ s.sendRate = 2190 ∧ s'.sendRate = 1095 :=
+  ⟨_, _, _, rfl, rfl, rfl, rfl⟩
+
+/-! ## 4. slow start -/
+
+/-- **C14_slowstart**: a feedback in slow start that stays in slow start at most doubles the rate
+(or sets it to `initRate rtt'`), capped by the ceiling; `reset_loss_rate` is not invoked. -/
+theorem C14_slowstart (ops : FloatOps F) (s s' : State F) (now : Nat) (fb : Feedback F)
+    (r : Option F) (ld ld' : Option Nat) (h : step ops s now (some fb) = .ok (s', r))
+    (hm : s.mode = .slowStart ld) (hm' : s'.mode = .slowStart ld') :
+    s'.sendRate ≤ min (max (2 * s.sendRate) (ops.initRate (rttOf ops s fb))) s.maxSendRate ∧
+    r = none ∧ lossInc ops s fb = false := by
+  cases step_ok_cases h with
+  | idle _ hi =>
+    rcases hi with hi | ⟨hi, _⟩
+    · rw [hm] at hi; cases hi
+    · cases hi
+  | feedback _ _ _ _ hf =>
+    obtain ⟨set, L, md, x, _, rfl, hb⟩ := handleFeedback_ok_cases hf
+    change md = _ at hm'
+    show min x s.maxSendRate ≤ _ ∧ _
+    cases hb with
+    | eqn _ _ => cases hm'
+    | leave _ _ _ _ _ => cases hm'
+    | first _ hl => exact ⟨by omega, rfl, hl⟩
+    | double _ _ hl _ _ _ => exact ⟨by omega, rfl, hl⟩
+    | keep _ _ hl _ _ => exact ⟨by omega, rfl, hl⟩
+
+example : ∃ s' r, step Ex.okOps
+    (Ex.st (.slowStart (some 0)) 5000 100000 [⟨u32max, 0, true⟩] (some 10)) 50
+    (some (Ex.fb 10 9000 0)) = .ok (s', r) ∧ s'.mode = .slowStart (some 50) ∧ s'.sendRate = 10000 :=
+  ⟨_, _, rfl, rfl, rfl⟩
+
+/-! ## 5. equation phase -/
+
+/-- **C14_eqn**: a feedback in the equation phase stores `tcp' = tcpRate rtt' fb.lossRate` and the
+new rate is at most `max tcp' MINIMUM_RATE` (and at most the ceiling). -/
+theorem C14_eqn (ops : FloatOps F) (s s' : State F) (now : Nat) (fb : Feedback F) (r : Option F)
+    (t : Nat) (h : step ops s now (some fb) = .ok (s', r)) (hm : s.mode = .eqn t) :
+    s'.mode = .eqn (ops.tcpRate (rttOf ops s fb) fb.lossRate) ∧
+    s'.sendRate ≤ max (ops.tcpRate (rttOf ops s fb) fb.lossRate) MINIMUM_RATE ∧
+    s'.sendRate ≤ s.maxSendRate ∧ r = none := by
+  cases step_ok_cases h with
+  | idle _ hi =>
+    rcases hi with hi | ⟨hi, _⟩
+    · rw [hm] at hi; cases hi
+    · cases hi
+  | feedback _ _ _ _ hf =>
+    obtain ⟨set, L, md, x, _, rfl, hb⟩ := handleFeedback_ok_cases hf
+    show md = _ ∧ min x s.maxSendRate ≤ _ ∧ min x s.maxSendRate ≤ _ ∧ _
+    cases hb with
+    | eqn _ _ => exact ⟨rfl, by omega, by omega, rfl⟩
+    | leave _ _ hm2 _ _ => rw [hm] at hm2; cases hm2
+    | first hm2 _ => rw [hm] at hm2; cases hm2
+    | double _ hm2 _ _ _ _ => rw [hm] at hm2; cases hm2
+    | keep _ hm2 _ _ _ => rw [hm] at hm2; cases hm2
+
+example : ∃ s' r, step Ex.okOps (Ex.st (.eqn 5000) 4000 100000 [⟨1000, 0, false⟩] (some 100)) 10
+    (some (Ex.fb 100 30000 9)) = .ok (s', r) ∧ s'.mode = .eqn 10000 ∧ s'.sendRate = 10000 :=
+  ⟨_, _, rfl, rfl, rfl⟩
+
+/-- **C14_eqn, entering the equation phase from slow start**: the stored rate is the target
+(`initLossRate rtt'` if never doubled, else half the current rate), the new rate is at most
+`max target MINIMUM_RATE`, and `reset_loss_rate` is called with the `p` returned by the bisection,
+which satisfies the exact exit condition of `tcpInv` (see `C14_tcpInv_exact`). -/
+theorem C14_eqn_enter (ops : FloatOps F) (s s' : State F) (now : Nat) (fb : Feedback F)
+    (r : Option F) (ld : Option Nat) (target : Nat) (h : step ops s now (some fb) = .ok (s', r))
+    (hm : s.mode = .slowStart ld) (hm' : s'.mode = .eqn target) :
+    target = ssTarget ops s fb ld ∧ lossInc ops s fb = true ∧
+    s'.sendRate ≤ max target MINIMUM_RATE ∧ s'.sendRate ≤ s.maxSendRate ∧
+    ∃ p, r = some p ∧
+      tcpInv ops (rttOf ops s fb) target bisectFuel ops.zero ops.one = .ok p ∧
+      ∃ k a b, k < bisectFuel ∧ Narrows ops (rttOf ops s fb) target k ops.zero ops.one a b ∧
+        p = ops.mid b a ∧ (BisectStuck ops a b ∨ BisectClose ops (rttOf ops s fb) target p) := by
+  cases step_ok_cases h with
+  | idle _ hi =>
+    rcases hi with hi | ⟨hi, _⟩
+    · rw [hm] at hi; cases hi
+    · cases hi
+  | feedback _ _ _ _ hf =>
+    obtain ⟨set, L, md, x, _, rfl, hb⟩ := handleFeedback_ok_cases hf
+    change md = _ at hm'
+    show _ ∧ _ ∧ min x s.maxSendRate ≤ _ ∧ min x s.maxSendRate ≤ _ ∧ _
+    cases hb with
+    | eqn _ hm2 => rw [hm] at hm2; cases hm2
+    | leave ld2 p hm2 hl hp =>
+      rw [hm] at hm2
+      cases hm2
+      cases hm'
+      exact ⟨rfl, hl, by omega, by omega, p, rfl, hp, (tcpInv_ok_iff _ _ _ _ _ _ _).mp hp⟩
+    | first _ _ => cases hm'
+    | double _ _ _ _ _ _ => cases hm'
+    | keep _ _ _ _ _ => cases hm'
+
+example : ∃ s' r, step Ex.okOps
+    (Ex.st (.slowStart (some 0)) 20000 100000 [⟨u32max, 0, true⟩] (some 10)) 50
+    (some (Ex.fb 10 30000 9)) = .ok (s', r) ∧ s'.mode = .eqn 10000 ∧ s'.sendRate = 10000 ∧
+    r = some 9 := ⟨_, _, rfl, rfl, rfl, rfl⟩
+
+/-- Slow start is left exactly on a loss increase: then `s'.mode = .eqn target`. -/
+theorem C14_eqn_enter_of_loss (ops : FloatOps F) (s s' : State F) (now : Nat) (fb : Feedback F)
+    (r : Option F) (ld : Option Nat) (h : step ops s now (some fb) = .ok (s', r))
+    (hm : s.mode = .slowStart ld) (hl : lossInc ops s fb = true) :
+    s'.mode = .eqn (ssTarget ops s fb ld) := by
+  cases step_ok_cases h with
+  | idle _ hi =>
+    rcases hi with hi | ⟨hi, _⟩
+    · rw [hm] at hi; cases hi
+    · cases hi
+  | feedback _ _ _ _ hf =>
+    obtain ⟨set, L, md, x, _, rfl, hb⟩ := handleFeedback_ok_cases hf
+    show md = _
+    cases hb with
+    | eqn _ hm2 => rw [hm] at hm2; cases hm2
+    | leave ld2 p hm2 _ _ => rw [hm] at hm2; cases hm2; rfl
+    | first _ hl2 => rw [hl] at hl2; cases hl2
+    | double _ _ hl2 _ _ _ => rw [hl] at hl2; cases hl2
+    | keep _ _ hl2 _ _ => rw [hl] at hl2; cases hl2
+
+example : lossInc Ex.okOps
+    (Ex.st (.slowStart (some 0)) 20000 100000 [⟨u32max, 0, true⟩] (some 10)) (Ex.fb 10 30000 9)
+    = true := rfl
+
+/-- **What `tcpInv` guarantees, exactly**: it returns `p` iff after `k < fuel` iterations that do
+not return (each: bracket not stuck, midpoint rate not within 5 % of the target, continue with the
+upper half if the rate is too high, the lower half if too low) a bracket `[a',b']` is reached
+whose midpoint is `p` and either the bracket can not be narrowed (`feq p a' || feq p b'`) or
+`tcpRate rtt p - target ≤ mul005 target ∧ target - tcpRate rtt p ≤ mul005 target`. -/
+theorem C14_tcpInv_exact (ops : FloatOps F) (rtt : F) (target fuel : Nat) (a b p : F) :
+    tcpInv ops rtt target fuel a b = .ok p ↔
+      ∃ k a' b', k < fuel ∧ Narrows ops rtt target k a b a' b' ∧ p = ops.mid b' a' ∧
+        ((ops.feq p a' || ops.feq p b') = true ∨
+         (ops.tcpRate rtt p - target ≤ ops.mul005 target ∧
+          target - ops.tcpRate rtt p ≤ ops.mul005 target)) := by
+  rw [tcpInv_ok_iff]
+  constructor
+  · rintro ⟨k, a', b', hk, hn, rfl, hfin⟩
+    exact ⟨k, a', b', hk, hn, rfl, hfin⟩
+  · rintro ⟨k, a', b', hk, hn, rfl, hfin⟩
+    exact ⟨k, a', b', hk, hn, rfl, hfin⟩
+
+example : (tcpInv Ex.okOps 10 10000 bisectFuel 0 1000).toOption = some 9 := by decide +kernel
+
+/-! ## 6. RTT -/
+
+/-- **C14_rtt**: a processed feedback stores the EWMA of the old RTT and the sample (or the first
+sample), in seconds and in milliseconds. -/
+theorem C14_rtt (ops : FloatOps F) (s s' : State F) (now : Nat) (fb : Feedback F) (r : Option F)
+    (h : step ops s now (some fb) = .ok (s', r)) (hm : s.mode ≠ .awaitSend) :
+    s'.rttS = some (match s.rttS with
+      | some r => ops.ewma r (ops.msToS fb.rttMs)
+      | none => ops.msToS fb.rttMs) ∧
+    s'.rttMs = some (ops.sToMs (match s.rttS with
+      | some r => ops.ewma r (ops.msToS fb.rttMs)
+      | none => ops.msToS fb.rttMs)) ∧
+    s'.rttS = some (rttOf ops s fb) := by
+  cases step_ok_cases h with
+  | idle _ hi =>
+    rcases hi with hi | ⟨hi, _⟩
+    · exact absurd hi hm
+    · cases hi
+  | feedback _ _ _ _ hf =>
+    obtain ⟨set, L, md, x, _, rfl, _⟩ := handleFeedback_ok_cases hf
+    exact ⟨rfl, rfl, rfl⟩
+
+example : ∃ s' r, step Ex.okOps (Ex.st (.eqn 5000) 4000 100000 [⟨1000, 0, false⟩] (some 100)) 10
+    (some (Ex.fb 200 30000 9)) = .ok (s', r) ∧ s'.rttS = some 110 ∧ s'.rttMs = some 110 :=
+  ⟨_, _, rfl, rfl, rfl⟩
 
 end Uflow.Props.C14
